@@ -121,10 +121,18 @@ def check_function(ctx, modname, name, f, inline, n_random):
         ctx.violation("non-bool-add-ws-accepted", "%s.%s(_add_ws=%r) accepted" % (modname, name, bad), wit)
         return
     # each call creates its own element
-    a, b = f("k"), f("k")
-    if a is b or a.children is b.children or a.attrs is b.attrs:
-        ctx.violation("tag-function-shares-state", "%s.%s returns shared objects" % (modname, name), wit)
-        return
+    for mk_ in (lambda: f("k"), lambda: f(), lambda: f(id="i")):
+        a, b = mk_(), mk_()
+        if a is b or a.children is b.children or a.attrs is b.attrs:
+            ctx.violation("tag-function-shares-state", "%s.%s returns shared objects" % (modname, name), wit)
+            return
+        a.append("mutated")
+        a.attrs["data-mutated"] = "1"
+        a.add_ws = not a.add_ws
+        c = mk_()
+        if fp(c) != fp(b):
+            ctx.violation("tag-function-shares-state", "mutating one %s.%s() result shows up in a later call" % (modname, name), wit)
+            return
     # pass-through: deterministic probes first (every function gets the same argument shapes), then random lists
     T = lambda s_: {"k": "text", "s": s_}
     probes = [{"kids": [T(x)], "dicts": [], "kw": []} for x in ("\nx", "\n", " lead", "trail ", "\t", "", "<b>&amp;", "\r\nq", "a\nb")]
@@ -134,7 +142,11 @@ def check_function(ctx, modname, name, f, inline, n_random):
                {"kids": [], "dicts": [[["style", S_("a:b;")]], [["style", S_("c:d;")]]], "kw": [["style", S_("e:f;")]]},
                {"kids": [gen.TAG("span", T("\nin"), ws=False)], "dicts": [], "kw": [["title", S_("\nt")]]},
                {"kids": [], "dicts": [[["xlink:href", S_("#a")]]], "kw": [["xlink_href", S_("#b")], ["xml_lang", S_("en")], ["data_x_y", S_("1")], ["aria_label", S_("l")]]},
-               {"kids": [T("k")], "dicts": [], "kw": [["class_", S_("c")], ["for_", S_("f")], ["http_equiv", S_("r")], ["accept_charset", S_("u")], ["x__", S_("d")]]}]
+               {"kids": [T("k")], "dicts": [], "kw": [["class_", S_("c")], ["for_", S_("f")], ["http_equiv", S_("r")], ["accept_charset", S_("u")], ["x__", S_("d")]]},
+               # the order of keyword attributes is the caller's order, whatever the names are
+               {"kids": [], "dicts": [], "kw": [["class_", S_("c")], ["href", S_("/x")], ["id", S_("i")], ["src", S_("s")], ["name", S_("n")], ["type", S_("t")], ["value", S_("v")]]},
+               {"kids": [], "dicts": [], "kw": [["value", S_("v")], ["type", S_("t")], ["name", S_("n")], ["src", S_("s")], ["id", S_("i")], ["href", S_("/x")], ["class_", S_("c")],
+                                                ["alt", S_("a")], ["title", S_("t")], ["style", S_("k:v;")], ["width", {"t": "num", "v": 3}], ["height", {"t": "num", "v": 4}]]}]
     for args in probes + [rand_args(rng) for _ in range(n_random)]:
         w2 = dict(wit, args=args)
         try:
